@@ -126,3 +126,6 @@
                     (basept pv (select (select rh (s-arr (select rows (+ ro (- n 1))))) (+ (s-off (select rows (+ ro (- n 1)))) i)))))))
      :pattern ((seqComb sv pv ee eo rows ro rh i n)))))
 (declare-fun vssCertified (Int) Bool)
+; ---- DKG packets (share/dkg/pedersen/protocol.go: set) ----
+(declare-fun pktHash (Int) Bytes) ; hash of the packet object (at the time it is pushed)
+(declare-fun pktIdx (Int) Int)    ; index of its sender
